@@ -364,11 +364,103 @@ def run_cases(ck: Check, quick: bool, n_random: int):
     compare_model(ck, reqs, expect)
 
 
+def cyl_periodic_cases(ck: Check, n: int):
+    """cylindrical grids with periodic z: one droplet per PERIODIC component that touches the symmetry axis (volume = sum
+    of its cell volumes, z = unwrapped centre of mass), whatever else is in the image (off-axis rings / tubes, also ones
+    that span the whole z axis); only when an ON-AXIS component spans the whole axis the notion is undefined"""
+    from pde import CylindricalSymGrid, ScalarField
+    from droplets.image_analysis import locate_droplets_in_mask
+
+    rng = ck.rng
+    for i in range(n):
+        nr, nz = rng.randint(2, 6), rng.randint(3, 9)
+        dr, dz = rng.choice([1.0, 0.5]), rng.choice([1.0, 0.75])
+        z0 = rng.choice([0.0, -2.0])
+        grid = CylindricalSymGrid(nr * dr, [z0, z0 + nz * dz], [nr, nz], periodic_z=True)
+        kind = rng.choice(["noise", "blob+tube", "blob+tube", "blobs"])
+        m = np.zeros((nr, nz), dtype=bool)
+        if kind == "noise":
+            m = np.array([rng.random() < rng.choice([0.2, 0.4]) for _ in range(nr * nz)]).reshape(nr, nz)
+        else:
+            for _ in range(rng.randint(1, 2)):
+                zc, ext, rad = rng.randrange(nz), rng.randint(0, max(0, (nz - 2) // 2 - 1)), rng.randint(1, max(1, nr - 2))
+                for k in range(-ext, ext + 1):
+                    m[:rad, (zc + k) % nz] = True  # on-axis blob, possibly across the periodic boundary
+            if kind == "blob+tube" and nr >= 3:
+                m[nr - 1, :] = True  # off-axis tube spanning the whole z axis
+                m[nr - 2, :] = False
+        ck.count("cyl_periodic." + kind)
+        check_cyl_mask(ck, nr, nz, dr, dz, z0, m)
+
+
+def check_cyl_mask(ck: Check, nr, nz, dr, dz, z0, m):
+    from pde import CylindricalSymGrid, ScalarField
+    from droplets.image_analysis import locate_droplets_in_mask
+
+    grid = CylindricalSymGrid(nr * dr, [z0, z0 + nz * dz], [nr, nz], periodic_z=True)
+    if True:
+        comps = components(m, [False, True])
+        onaxis = [(cells, lifts, w) for cells, lifts, w in comps if any(c[0] == 0 for c in cells)]
+        case = {"kind": "cyl-periodic", "shape": [nr, nz], "dr": dr, "dz": dz, "z0": z0, "mask": m.astype(int).tolist()}
+        sig = {"gen": "cyl-periodic"}
+        ck.case(("cylp", nr, nz, dr, dz, z0, m.tobytes()), nontrivial=bool(onaxis))
+        if any(w for _, _, w in onaxis):
+            ck.count("cyl_periodic.on_axis_component_spans_z")
+            return
+        try:
+            em = locate_droplets_in_mask(ScalarField(grid, m, dtype=bool))
+        except Exception as e:  # noqa: BLE001
+            ck.fail(f"cylindrical periodic mask raised {type(e).__name__}: {e}", {**sig, "check": "cyl_total"}, case)
+            return
+        vol_r, vdz = grid.cell_volume_data
+        cv = np.outer(vol_r, np.broadcast_to(vdz, (nz,)))
+        L = nz * dz
+        info = []
+        for cells, lifts, _ in onaxis:
+            vol = float(sum(cv[c] for c in cells))
+            zc = z0 + dz * (np.mean([c[1] + lifts[c][1] * nz for c in cells]) + 0.5)
+            info.append((vol, zc))
+        unused = list(range(len(info)))
+        kept = []
+        for d in em:
+            hit = None
+            for k in unused:
+                vol, zc = info[k]
+                dzz = (d.position[2] - zc + L / 2) % L - L / 2
+                if rel_close(d.volume, vol, 1e-9) and abs(dzz) < 1e-9 * L:
+                    hit = k
+                    break
+            if hit is None:
+                ck.fail(f"droplet z={d.position[2]:.4g} volume={d.volume:.6g} is not a periodic on-axis component (components: {[(round(v, 4), round(z, 4)) for v, z in info]})",
+                        {**sig, "check": "cyl_component"}, case)
+                break
+            unused.remove(hit)
+            kept.append(hit)
+            if not (z0 - 1e-12 <= d.position[2] <= z0 + L + 1e-12) or abs(d.position[0]) + abs(d.position[1]) > 0:
+                ck.fail(f"droplet position {d.position} not on the axis inside the box", {**sig, "check": "position_in_box"}, case)
+        else:
+            # components left out: only if their sphere overlaps a kept, at least as large one (overlap filter)
+            for k in unused:
+                vol, zc = info[k]
+                r = sphere_radius(vol, 3)
+                ok = False
+                for d in em:
+                    dzz = abs((d.position[2] - zc + L / 2) % L - L / 2)
+                    if min(dzz, abs(d.position[2] - zc)) < r + d.radius + 1e-9 and d.radius >= r - 1e-12:
+                        ok = True
+                if not ok:
+                    ck.fail(f"on-axis periodic component (volume {vol:.5g}, z {zc:.4g}) is missing from the result {[str(d) for d in em]}", {**sig, "check": "cyl_component"}, case)
+
+
 def replay(case: dict):
     from pde import CartesianGrid
 
     ck = Check("C02", "quick", 0)
     shape = tuple(case["shape"])
+    if case.get("kind") == "cyl-periodic":
+        check_cyl_mask(ck, shape[0], shape[1], case["dr"], case["dz"], case["z0"], np.array(case["mask"], dtype=bool))
+        bad = [f["what"] for f in ck.failures]
+        return not bad, "; ".join(bad[:3]) or "property holds on this input"
     if case.get("kind") == "exhaustive":
         n = int(np.prod(shape))
         m = np.array([(case["bits"] >> k) & 1 for k in range(n)], dtype=bool).reshape(shape)
@@ -394,3 +486,4 @@ def run(ck: Check):
                       "positions compared modulo the period with tolerance 1e-9 L (float centre of mass vs exact rational model)"]
     ck.lean = lean_stage("C02", extra_modules=["DropletsVerif.Props.C10"], leanchecker=not ck.quick)
     run_cases(ck, ck.quick, ck.budget(800, 12000))
+    cyl_periodic_cases(ck, ck.budget(300, 5000))
